@@ -314,8 +314,21 @@ def pickle_rt(p):
             raise Unsupported('to_pickable forked')
         outs = ob.eng.call(mid[0][0], L.from_pickable, [mid[0][2]], {})
         get = lambda v, st: v
-    elif entry == 'mpf':
-        mp = _ctx(53)
+    elif entry in ('copy', 'deepcopy') and any(('__%s__' % entry) in k.__dict__ for k in _ctx(p.get('cprec', 53)).mpf.__mro__[:-1]):
+        # the number type defines its own copy hook: it must reproduce the value exactly whatever the current precision is
+        mp = _ctx(p.get('cprec', 53))
+        xo = mp.make_mpf(x)
+        hook = getattr(mp.mpf, '__%s__' % entry)
+        outs = ob.run(hook, [xo] + ([{}] if entry == 'deepcopy' else []))
+
+        def get(v, st):
+            if type(v) is not mp.mpf:
+                return None
+            h = st.heap.get((id(v), '_mpf_'))
+            return h[1] if h is not None else v._mpf_
+    elif entry in ('mpf', 'copy', 'deepcopy'):
+        # (copy / deepcopy without a hook of their own go through __reduce_ex__, i.e. through this state pair)
+        mp = _ctx(p.get('cprec', 53))
         xo = mp.make_mpf(x)
         mid = ob.run(mp.mpf.__getstate__, [xo])
         if len(mid) != 1 or mid[0][1] != 0:
@@ -356,9 +369,17 @@ def pickle_rt_concrete(p, m):
         y = pickle.loads(pickle.dumps(xo, proto))
         if y._mpf_ != x or type(y) is not type(xo):
             return False, 'pickle protocol %d: %r -> %r' % (proto, x, y._mpf_)
-    y = copy.copy(xo)
-    if y._mpf_ != x:
-        return False, 'copy.copy: %r -> %r' % (x, y._mpf_)
+    mp.prec = p.get('cprec', 53)
+    try:
+        for nm, f in (('copy.copy', copy.copy), ('copy.deepcopy', copy.deepcopy)):
+            y = f(xo)
+            if y._mpf_ != x or type(y) is not type(xo):
+                return False, '%s at mp.prec = %d: %r -> %r' % (nm, mp.prec, x, y._mpf_)
+            z = f(mp.make_mpc((x, x)))
+            if z._mpc_ != (x, x):
+                return False, '%s of an mpc at mp.prec = %d: %r -> %r' % (nm, mp.prec, x, z._mpc_)
+    finally:
+        mp.prec = 53
     return True, ''
 
 
